@@ -57,7 +57,7 @@ struct op_s {
 	double t;
 	enum {
 		OP_CONN, OP_SEND, OP_FRAG, OP_SHUTWR, OP_CLOSE, OP_SIGNAL,
-		OP_CRASH, OP_SPOOLFAULT, OP_SPAWNFAULT, OP_STALL, OP_MARK,
+		OP_CRASH, OP_SPOOLFAULT, OP_SPAWNFAULT, OP_STALL, OP_MARK, OP_CLOCKSTEP,
 	} k;
 	int c;
 	long a, b;
@@ -146,6 +146,8 @@ static struct chld_s chlds[MAXCHLD];
 static int nchlds;
 static int sigq[16], nsigq;
 static double stall_next;
+/* a wall clock step applied by the op just handled (seconds) */
+static double step_now;
 static char spooldir[600];
 static int spool_dfd = -1;	/* the daemon's qdirfd as we see it */
 
@@ -1121,6 +1123,27 @@ apply_op(struct op_s *o)
 		h_int("id", o->a);
 		h_end();
 		break;
+	case OP_CLOCKSTEP: {
+		/* the wall clock is set DT seconds ahead or back (NTP step,
+		 * date -s, resume of a suspended machine); everything the
+		 * world still has in store keeps its distance in true time */
+		const double dt = (double)o->a / 1000.;
+
+		h_begin("clockstep", vnow());
+		h_dbl("dt", dt);
+		h_end();
+		for (int i = opi; i < ope; i++) {
+			P.ops[i].t += dt;
+		}
+		for (int i = 0; i < nchlds; i++) {
+			chlds[i].t_spawn += dt;
+			chlds[i].t_exit += dt;
+		}
+		wall_abs = 0.;
+		evm_clock_step(dt);
+		step_now += dt;
+		break;
+	}
 	}
 }
 
@@ -1205,7 +1228,29 @@ host_next_wake(double now, double due, int ioready)
 	evm_set_now(w);
 	while (opi < ope && P.ops[opi].t <= w) {
 		struct op_s *o = P.ops + opi++;
+
+		if (o->k == OP_CLOCKSTEP && !o->b && due <= w) {
+			/* a step noticed while an expiry is outstanding loses
+			 * that occurrence (known finding C04/clock-step): the
+			 * campaigns step the clock at quiet moments only, this
+			 * one is put off until nothing is overdue */
+			o->t = w + 0.0005;
+			opi--;
+			for (int i = opi; i + 1 < ope && P.ops[i].t > P.ops[i + 1].t; i++) {
+				struct op_s tmp = P.ops[i];
+				P.ops[i] = P.ops[i + 1], P.ops[i + 1] = tmp;
+			}
+			if (P.ops[opi].k == OP_CLOCKSTEP && P.ops[opi].t > w) {
+				break;
+			}
+			continue;
+		}
 		apply_op(o);
+		if (step_now != 0.) {
+			w += step_now;
+			step_now = 0.;
+			wake_kind = "clockstep";
+		}
 		if (stall_next > 0.) {
 			w += stall_next;
 			stall_next = 0.;
@@ -1663,6 +1708,10 @@ load_plan(const char *fn)
 				o->a = errno_of(tok[4]), o->b = atol(tok[5]);
 			} else if (!strcmp(tok[2], "stall") && nt >= 4) {
 				o->k = OP_STALL, o->a = (long)(atof(tok[3]) * 1000.);
+			} else if (!strcmp(tok[2], "clockstep") && nt >= 4) {
+				/* clockstep MS [any]: "any" = even while an expiry is outstanding */
+				o->k = OP_CLOCKSTEP, o->a = atol(tok[3]);
+				o->b = nt >= 5 && !strcmp(tok[4], "any");
 			} else if (!strcmp(tok[2], "mark") && nt >= 4) {
 				o->k = OP_MARK, o->a = atol(tok[3]);
 			} else {
